@@ -41,6 +41,17 @@ SPECS = {
         Target(PLIST, "ShampooPreconditionerList._get_inverse_roots_from_override", coq_name="shampoo_get_inverse_roots", **ROOTS),
         Target(PLIST, "EigenvalueCorrectedShampooPreconditionerList._get_inverse_roots_from_override", coq_name="eigcorr_get_inverse_roots", **ROOTS),
     ]),
+    "C10": ("GenC10", "EquivC10.v", "", [
+        # matrix_inverse_root: which path is taken / which exception is raised, as a function of the shape, the flags and the config class
+        Target("matrix_functions.py", "matrix_inverse_root", mode="decision", coq_name="matrix_inverse_root_path", params=["is_diagonal"],
+               ignore_calls=("logging.warning",),
+               atoms=[("torch.numel(A)", "numel", "Z"), ("A.shape", "shape", "list Z"), ("is_diagonal", "is_diagonal", "bool"),
+                      ("type(root_inv_config) is EigenConfig", "is_eigen", "bool"), ("type(root_inv_config) is CoupledNewtonConfig", "is_newton", "bool"),
+                      ("type(root_inv_config) is CoupledHigherOrderConfig", "is_higher_order", "bool"), ("root.denominator", "denominator", "Z")],
+               actions={"return (A - torch.minimum(": 0, "X = _matrix_inverse_root_diagonal(": 1, "X, _, _ = _matrix_inverse_root_eigen(": 2,
+                        "X, _, termination_flag, _, _ = _matrix_inverse_root_newton(": 3,
+                        "X, _, termination_flag, _, _ = _matrix_inverse_root_higher_order(": 4}),
+    ]),
     "C13": ("GenC13", "EquivC13.v", "", [
         Target(PLIST, "BaseShampooPreconditionerList._raise_exception_if_failure_tolerance_exceeded", coq_name="raise_exception_if_failure_tolerance_exceeded",
                atoms=[("self._masked_failed_amortized_computation_counter_index_list", "masked_index_list", "list Z"),
@@ -66,6 +77,18 @@ SPECS = {
     "C15": ("GenC15", "EquivC15.v", "", [
         Target("distributed_shampoo/utils/shampoo_fsdp_distributor.py", **{**SPLIT, "qualname": "FSDPDistributor._split_tensor_block_recovery"}, prefix="fsdp_"),
         Target("distributed_shampoo/utils/shampoo_hsdp_distributor.py", **{**SPLIT, "qualname": "HSDPDistributor._split_tensor_block_recovery"}, prefix="hsdp_"),
+    ]),
+    "C06": ("GenC06", "EquivC06.v", "", [
+        # the four definitions of peers_have_gradients (base class: no communication; DDP / HSDP / HybridShard: any block of the group)
+        Target("distributed_shampoo/utils/shampoo_distributor.py", "DistributorInterface.peers_have_gradients", coq_name="base_peers_have_gradients"),
+        *(Target(f"distributed_shampoo/utils/shampoo_{f}_distributor.py", f"{c}.peers_have_gradients", coq_name=f"{f}_peers_have_gradients",
+                 atoms=[("self._global_grad_selector", "global_grad_selector", "list bool")])
+          for f, c in (("ddp", "DDPDistributor"), ("hsdp", "HSDPDistributor"), ("hybrid_shard", "HybridShardDistributor"))),
+        # step(): what happens to a group whose LOCAL masked gradient list is empty
+        Target(DS, "DistributedShampoo.step", mode="decision", coq_name="step_skip_decision", stop_before="if not state_lists[MASKED_BLOCKED_GRADS]:",
+               atoms=[("state_lists[MASKED_BLOCKED_GRADS]", "masked_blocked_grads", "list Z"),
+                      ("state_lists[DISTRIBUTOR].peers_have_gradients()", "peers_have_gradients", "bool")],
+               actions={"state_lists[STEP].add_(1)": 0, "state_lists[DISTRIBUTOR].update_params(masked_blocked_search_directions=())": 1}),
     ]),
     "C09": ("GenC09", "EquivC09.v", "From Coq Require Import String.\n", [
         Target(DS, "DistributedShampoo._construct_param_group_key", coq_name="construct_param_group_key", params=["param_to_key"],
